@@ -136,6 +136,86 @@ def lift(x, t=None):
     raise CannotConcretise(f"cannot lift {type(x).__name__}")
 
 
+def flat_py(t, x):
+    """python value -> list of python scalars / numeval.Arr aligned with t.sorts()"""
+    from .numeval import Arr
+    import numpy as np
+    if isinstance(t, (TIntT, TRealT, TBoolT, TStrT)):
+        if isinstance(x, (np.floating, np.integer)):
+            x = x.item()
+        return [float(x) if isinstance(t, TRealT) else x]
+    if isinstance(t, (TNodeT, TObjT)):
+        return [x]
+    if isinstance(t, TTuple):
+        return [v for s, e in zip(t.ts, x) for v in flat_py(s, e)]
+    if isinstance(t, TVec):
+        return [float(v) for v in np.asarray(x, dtype=float).reshape(-1)]
+    if isinstance(t, TOpt):
+        if x is None:
+            return [True] + [0.0 if str(s) == "Real" else 0 for s in t.t.sorts()]
+        return [False] + flat_py(t.t, x)
+    if isinstance(t, TList):
+        rows = [flat_py(t.t, e) for e in x]
+        ncomp = len(t.t.sorts())
+        return [len(rows)] + [Arr(lambda i, rows=rows, c=c: rows[i][c] if 0 <= i < len(rows) else 0) for c in range(ncomp)]
+    if isinstance(t, TDict):
+        items = {(k if not isinstance(k, list) else tuple(k)): flat_py(t.v, v) for k, v in x.items()}
+        ncomp = len(t.v.sorts())
+        return [Arr(lambda k, items=items: k in items)] + [Arr(lambda k, items=items, c=c: items[k][c] if k in items else 0) for c in range(ncomp)]
+    if isinstance(t, TRec):
+        return [v for f, ft in t.fields.items() for v in flat_py(ft, x[f])]
+    raise CannotConcretise(f"flat_py {t}")
+
+
+def numeric_clause_check(contract, eng, args, result):
+    """evaluate every ensures clause numerically on the real outcome; returns list of failed clause names or None if undecidable"""
+    from .engine import Engine
+    from .numeval import evaluate, CannotEvaluate
+    sym_env, assign = {}, {}
+    for p, t in contract.params.items():
+        v = t.fresh(p)
+        sym_env[p] = v
+        for term, val in zip(t.flat(v), flat_py(t, args[p])):
+            assign[term.decl().name()] = val
+    rt = contract.result
+    if rt is not None:
+        rv = rt.fresh("result")
+        sym_env["result"] = rv
+        for term, val in zip(rt.flat(rv), flat_py(rt, result)):
+            assign[term.decl().name()] = val
+    else:
+        sym_env["result"] = None
+    e2 = Engine(eng.registry)
+    e2.contract = contract
+    failed = []
+    for name, ens in contract.ensures:
+        val = e2.spec_eval(ens, sym_env, old_env=sym_env)
+        if isinstance(val, bool):
+            ok = val
+        else:
+            try:
+                ok = bool(evaluate(val, assign))
+            except CannotEvaluate:
+                return None
+        if not ok:
+            failed.append(name)
+    return failed
+
+
+def has_reals(t):
+    if isinstance(t, TRealT) or isinstance(t, TVec):
+        return True
+    if isinstance(t, TTuple):
+        return any(has_reals(x) for x in t.ts)
+    if isinstance(t, (TOpt, TList)):
+        return has_reals(t.t)
+    if isinstance(t, TDict):
+        return has_reals(t.k) or has_reals(t.v)
+    if isinstance(t, TRec):
+        return any(has_reals(x) for x in t.fields.values())
+    return False
+
+
 def real_function(target):
     modname, qual = target.split(":")
     repo = source.REPO
@@ -177,6 +257,16 @@ def generic_replay(contract):
             allowed = [exc for exc, _ in contract.raises]
             bad = raised not in allowed and not (raised == "OSError" and "IOError" in allowed)
             return (bad, {"args": shown, "raised": raised}, f"real function raised {raised}")
+        if any(has_reals(t) for t in contract.params.values()) or (contract.result is not None and has_reals(contract.result)):
+            try:
+                failed = numeric_clause_check(contract, eng, args, result)
+            except CannotConcretise:
+                failed = None
+            if failed is None:
+                return None
+            return (bool(failed), {"args": shown, "result": repr(result)[:300]},
+                    f"postcondition clause(s) {failed} false (tolerance 1e-6) on the real floating point result" if failed
+                    else "real result satisfies the contract on this input (within 1e-6)")
         # evaluate the failed clause on the concrete outcome
         env = {p: lift(args[p], t) for p, t in contract.params.items()}
         env["result"] = lift(result, contract.result)
